@@ -38,6 +38,7 @@ import Driver.AbsWrite
 import Driver.Small4
 import Driver.CrossType
 import Driver.AdpcmEnc
+import Driver.AbsMeta
 open Sf
 
 def lawOf (s : String) : Option G711.Law :=
@@ -121,4 +122,5 @@ def main (args : List String) : IO UInt32 := do
   | "small4" :: rest => Driver.Small4.cmd rest
   | "crosstype" :: rest => CrossTypeDriver.cmd rest
   | "adpcmenc" :: rest => Driver.AdpcmEnc.cmd rest
+  | "abs-meta" :: rest => AbsMetaDriver.cmd rest
   | _ => IO.eprintln "usage: sfmodel <g711|...> ..."; return 2
